@@ -42,13 +42,14 @@ def run(ctx):
         if b is not None:
             # forwards (n, d, rng) in order
             e1 = ctx.evaluate(b)
-            same = canon_loops(T.subst(e1.ret_term, {S('rng'): T.app('seed_from_u64', S('seed'))})) 
+            ctx.check('C18.fwd.ret', 'core::init_with_seed', 'result', canon_loops(ev.ret_term) is canon_loops(e1.ret_term), expected='returns what the construction helper returns, on every path',
+                      found=show(ev.ret_term)[:300], sp=bw['sp'], why='a guard clause or a post-processing step in the entry point changes the sample for the inputs it singles out')
             ctx.check('C18.fwd', 'core::init_with_seed', 'forward', shape_sig(ctx, ev) == shape_sig(ctx, e1), expected='_init(n, d, generator) with n and d in order', found=str(shape_sig(ctx, ev)), sp=bw['sp'],
                       why='swapped n/d would transpose the result')
     if bd is not None and bw is not None:
         r1, r2 = ctx.evaluate(bw), ctx.evaluate(bd)
         s2 = [s.args[0] for s in E.rng_sites(r2) if s.kind == 'seed']
-        ctx.check('C18.det_is_seed_42', 'core::init_det', 'seed', s2 == [N(42)] and shape_sig(ctx, r1) == shape_sig(ctx, r2), expected='init_det(n, d) = init_with_seed(n, d, 42)', found='seed %s, shape %s' % ([show(x) for x in s2], shape_sig(ctx, r2)), sp=bd['sp'],
+        ctx.check('C18.det_is_seed_42', 'core::init_det', 'seed', s2 == [N(42)] and shape_sig(ctx, r1) == shape_sig(ctx, r2) and canon_loops(r1.ret_term) is canon_loops(r2.ret_term), expected='init_det(n, d) = init_with_seed(n, d, 42)', found='seed %s, shape %s' % ([show(x) for x in s2], shape_sig(ctx, r2)), sp=bd['sp'],
                   why='documented equality')
     if bi is not None:
         ev = ctx.evaluate(bi)
@@ -56,6 +57,9 @@ def run(ctx):
         ent = [s for s in E.rng_sites(ev) if s.kind == 'entropy']
         draws = [s for s in E.rng_sites(ev) if s.kind == 'draw']
         ok = kinds == ['draw', 'entropy'] and len(ent) == 1 and all(E.origin(ev, d.gen) is ent[0].res for d in draws) and shape_sig(ctx, ev)[0:2] == ('n', 'd')
+        if b is not None:
+            ctx.check('C18.init_os.ret', 'core::init', 'result', canon_loops(ev.ret_term) is canon_loops(ctx.evaluate(b).ret_term), expected='returns what the construction helper returns, on every path',
+                      found=show(ev.ret_term)[:300], sp=bi['sp'], why='same shape and distribution as the seeded variants for every (n, d)')
         ctx.check('C18.init_os', 'core::init', 'source', ok, expected='one OS-seeded local generator, all draws from it, shape (n, d)', found=str(kinds), sp=bi['sp'], why='unseeded variant: fresh entropy, same shape and distribution')
 
 
